@@ -47,7 +47,7 @@ def judge(byc, res):
         rx = py_regexp(cfg)
         decided = 0
         for lf in r.leaves:
-            if lf.lab != "user" or not l3.in_zone(lf.path):
+            if lf.lab not in ("user", "any") or not l3.in_zone(lf.path):
                 continue
             if lf.path[2] == "documents" and jsonx.get(r.inp, ("attr", lf.path[1], "insert")) is None:
                 continue
@@ -63,6 +63,8 @@ def judge(byc, res):
                 continue
             decided += 1
             where = "%s/%s" % (lf.path[1], l3.abstract_path(lf.path[2:]))
+            if matches and lf.lab != "user":
+                continue            # positions the grammar does not label as client literals: only the keep rule is decided
             if matches:
                 redactable = t == 'str' or (t == 'num' and cfg.num) or (t == 'bool' and cfg.bool and lf.node[1] is True)
                 if redactable and (o == lf.node or (lf.token and lf.token in r.raw)):
@@ -99,8 +101,11 @@ def run(tier):
           "GMKinds": '{"plain","email","num","bool","date","oid","b64"}'}
     plan = [("RedactorGM", gm),
             ("RedactorGM", dict(gm, GMDepth="7", GMWide="0", GMMaxArr="2", GMKinds='{"plain","num"}'))]   # representative keys only, deeper: wrapper chains
+    # every entry of the operator tables in every context (after a leading $search stage, in sub-pipelines, $facet ...) with no matching name
+    # anywhere: everything is must-keep
+    plan.append(("RedactorTW", {"TWShapeKinds": '{"s","os","as"}'}))
     if tier == "thorough":
-        plan = [("RedactorGM", dict(gm, GMDepth="6", GMMaxArr="2", GMTail="2")),
+        plan = [("RedactorTW", {"TWShapeKinds": "{}"}), ("RedactorGM", dict(gm, GMDepth="6", GMMaxArr="2", GMTail="2")),
                 ("RedactorGM", dict(gm, GMDepth="8", GMWide="0", GMMaxArr="2", GMMaxFld="3", GMKinds='{"plain","num","email"}'))]
     states = trans = 0
     for mod, defs in plan:
